@@ -31,6 +31,17 @@ class Geo:
             return rng.randint(-40, 40) * 2.0 ** -rng.choice([0, 0, 0, 1, 2, 3])
         return rng.randint(-400, 400) * rng.choice([1e-9, 0.5e-9, 0.1e-9, 0.37e-9])
 
+    def span(self, rng, k):
+        """Corners of an edge of k cells. In the nm family the upper corner is sometimes the float
+        nearest to the DECIMAL sum (3e-9 as a user types it), which is not always the float sum
+        pmin + k*cell the other half of the cases uses."""
+        c, a = self.cell(rng), self.origin(rng)
+        if self.family != "dyadic" and rng.random() < 0.4:
+            from decimal import Decimal
+
+            return a, float(Decimal(repr(a)) + k * Decimal(repr(c)))
+        return a, a + k * c
+
     def vec(self, rng, cell):
         if self.family == "dyadic":
             return rng.randint(-16, 16) * 2.0 ** -rng.choice([0, 0, 1, 2])
@@ -74,9 +85,8 @@ def draw_n(rng, ndim, max_cells, lo=1, hi=6):
 
 def draw_region_spec(rng, geo, ndim, n=None, allow_mixed_units=True):
     n = n or draw_n(rng, ndim, 300)
-    cells = [geo.cell(rng) for _ in range(ndim)]
-    pmin = [geo.origin(rng) for _ in range(ndim)]
-    pmax = [a + k * c for a, k, c in zip(pmin, n, cells)]
+    spans = [geo.span(rng, k) for k in n]
+    pmin, pmax = [a for a, _ in spans], [b for _, b in spans]
     p1, p2 = list(pmin), list(pmax)
     for i in range(ndim):
         if rng.random() < 0.3:
@@ -255,6 +265,7 @@ def draw_scale(rng, geo, h_slot, m, inplace, out):
     else:
         f, ref = 1, None
     o = {"op": "scale", "on": h_slot, "factor": f, "ref": ref, "inplace": inplace, "out": out}
+    _own_ref(rng, geo, o, m, lambda r: m.scale(f, r))
     if isinstance(f, list):
         r = rng.random()
         if r < 0.2:
@@ -277,7 +288,26 @@ def draw_rotate(rng, geo, h_slot, m, inplace, out, kmax=9):
             break
     else:
         ref = None
-    return {"op": "rotate90", "on": h_slot, "ax1": ax1, "ax2": ax2, "k": k, "ref": ref, "inplace": inplace, "out": out}
+    o = {"op": "rotate90", "on": h_slot, "ax1": ax1, "ax2": ax2, "k": k, "ref": ref, "inplace": inplace, "out": out}
+    _own_ref(rng, geo, o, m, lambda r: m.rotate90(ia, ib, k, r))
+    return o
+
+
+def _own_ref(rng, geo, o, m, apply):
+    """Sometimes the caller passes one of the object's OWN corner arrays as reference point
+    (mesh.region.pmin, a subregion's pmax): the very array object the in-place form is about to
+    change. The map is defined by the value the array has at the time of the call."""
+    if rng.random() >= 0.12:
+        return
+    reg = m.region if isinstance(m, MeshM) else m
+    choices = [("pmin", reg.pmin), ("pmax", reg.pmax)]
+    if isinstance(m, MeshM):
+        for i, (_, sub) in enumerate(m.subs):
+            choices += [(f"sub:{i}:pmin", sub.pmin), (f"sub:{i}:pmax", sub.pmax)]
+    name, val = rng.choice(choices)
+    if geo.sane(apply([float(x) for x in val])):
+        o["ref"] = None
+        o["ref_own"] = name
 
 
 def draw_reject(rng, h_slot, kind, reg, methods, inplace, field_unmapped_axes=None):
